@@ -181,6 +181,94 @@ def idStar (ordf : List World → List World) (dordf : List Var → List Var) (G
     Except Err Expr :=
   idStarFuel ordf dordf G (idStarFuelBound G ev) ev
 
+
+/-! ### decidable tests of the fragments on which soundness is proved (Props/C07.lean); the harness asks the driver for them -/
+
+/-- the subscript set of the first key (the world of a single-world event) -/
+def worldB (ev : Event) : World :=
+  match ev with
+  | [] => []
+  | p :: _ => p.1.ivs
+
+/-- the polarity the event gives the variable named `n` (starred iff some key over `n` has a starred value) -/
+def starOf (ev : Event) : Name → Bool := fun n => ev.any fun p => p.1.name == n && p.2.star
+
+/-- fragment 1 (`InFragment`): one subscript set, unstarred values and subscripts -/
+def inFragmentB (G : MG Name) (ev : Event) : Bool :=
+  match ev with
+  | [] => true
+  | p :: _ =>
+    decide (ev.keys.Nodup) &&
+    ev.all (fun q => decide (q.2 = ⟨q.1.name, false⟩) && decide (q.1.star = none) && !q.1.isIv &&
+      decide (q.1.name ∈ G.nodes) && decide (q.1.ivs = p.1.ivs)) &&
+    p.1.ivs.all (fun i => !i.star)
+
+def consistentB (S : List Iv) : Bool := S.all fun i => S.all fun j => decide (i.name = j.name → i = j)
+
+/-- `Clean2`: if line 6 fires, no starred-valued key is a parent (in `G`) of a non-self-intervened node of the counterfactual
+graph and no node of the graph is self-intervened on a starred subscript -/
+def cleanB (ordf : List World → List World) (G : MG Name) (w : World) (s : Name → Bool) (ev : Event) : Bool :=
+  match makeCounterfactualGraph ordf G ev with
+  | .ok (g, some nev) =>
+    match isConnected (nsiSubgraph g) with
+    | .ok false =>
+      nev.all (fun q => !(s q.1.name) || (nsiSubgraph g).nodes.all (fun n => decide ((q.1.name, n.name) ∉ G.di))) &&
+      g.nodes.all (fun n => isNotSelfIntervened n || w.all (fun i => decide (i.name = n.name → i.star = false)))
+    | _ => true
+  | _ => true
+
+/-- fragment 2 (`InFragment2`): one subscript set, any polarity, line 6 keeps the polarities -/
+def inFragment2B (ordf : List World → List World) (G : MG Name) (ev : Event) : Bool :=
+  decide (ev.keys.Nodup) &&
+  ev.all (fun q => decide (q.2 = ⟨q.1.name, starOf ev q.1.name⟩) && decide (q.1 = atWorld q.1.name (worldB ev)) &&
+    decide (q.1.name ∈ G.nodes)) &&
+  consistentB (worldB ev) &&
+  (violatesEffectiveness ev || cleanB ordf G (worldB ev) (starOf ev) (removeTautologies ev))
+
+/-- well-formed events (`GoodEv`): a dict whose keys are variables of the graph with consistent subscript sets, values named
+after their variables -/
+def goodEvB (G : MG Name) (ev : Event) : Bool :=
+  decide (ev.keys.Nodup) &&
+  ev.all (fun q => decide (q.2.name = q.1.name) && decide (q.1.star = none) && !q.1.isIv && decide (q.1.name ∈ G.nodes) &&
+    consistentB q.1.ivs)
+
+/-- fragment 2R (`InFragment2R`): a well-formed event (any number of worlds) that violates effectiveness, or whose conjuncts are all
+tautologies, or that line 3 reduces to an event of fragment 2 -/
+def inFragment2RB (ordf : List World → List World) (G : MG Name) (ev : Event) : Bool :=
+  goodEvB G ev &&
+  (violatesEffectiveness ev || (removeTautologies ev).isEmpty || inFragment2B ordf G (removeTautologies ev))
+
+/-- `Frag3At` (Lemmas/CfMwC.lean): the condition on the counterfactual graph of an event that is still multi-world after line 3 -/
+def frag3AtB (G : MG Name) (g : MG Var) (nev : Event) : Bool :=
+  let N := (nsiSubgraph g).nodes
+  N.all (fun a => N.all fun b => decide (a.name = b.name → a = b)) &&
+  N.all (fun n => g.nodes.all fun x => x.ivs.all fun i => decide (i.name ≠ n.name)) &&
+  consistentB (cfInterventions g.nodes) &&
+  g.nodes.all (fun a => g.nodes.all fun b => !(isNotSelfIntervened a) || !(isNotSelfIntervened b) || decide (a = b) ||
+    !(decide ((a.name, b.name) ∈ G.bi) || decide ((b.name, a.name) ∈ G.bi)) || g.hasBi a b) &&
+  (match isConnected (nsiSubgraph g) with
+   | .ok true => g.nodes.all fun x => isNotSelfIntervened x ||
+       x.ivs.all fun i => decide (i.name ≠ x.name) || elem' i (cfInterventions N)
+   | .ok false =>
+       nev.all (fun q => !(starOf nev q.1.name) || N.all fun n => decide ((q.1.name, n.name) ∉ G.di)) &&
+       g.nodes.all (fun x => isNotSelfIntervened x || x.ivs.all fun i => decide (i.name ≠ x.name) || !i.star)
+   | .error _ => false)
+
+/-- fragment 3 (`InFragment3`): a well-formed event that passes lines 1–3 with a non-empty remainder whose counterfactual graph
+satisfies `Frag3At` -/
+def inFragment3B (ordf : List World → List World) (G : MG Name) (ev : Event) : Bool :=
+  goodEvB G ev && !violatesEffectiveness ev && !(removeTautologies ev).isEmpty &&
+  match makeCounterfactualGraph ordf G (removeTautologies ev) with
+  | .ok (g, some nev) => frag3AtB G g nev
+  | _ => false
+
+/-- single-world events (`OneWorld`) -/
+def oneWorldB (G : MG Name) (ev : Event) : Bool :=
+  decide (ev.keys.Nodup) &&
+  ev.all (fun q => decide (q.2 = ⟨q.1.name, starOf ev q.1.name⟩) && decide (q.1 = atWorld q.1.name (worldB ev)) &&
+    decide (q.1.name ∈ G.nodes)) &&
+  consistentB (worldB ev)
+
 /-- the orders of district nodes used by the correspondence: sorted by `_variable_sort_key`, or reversed -/
 def orderDistrict (rev : Bool) (d : List Var) : List Var :=
   let s := sortBy Var.keyLt d
